@@ -62,25 +62,7 @@ void *memcpy(void *dst, const void *src, size_t n)
 }
 #endif
 
-/* sys/sysmacros.h: glibc's encoding of dev_t (no body in CBMC) */
-unsigned int gnu_dev_major(unsigned long dev)
-{
-	return (unsigned int)(((dev >> 8) & 0xfffu) |
-			      ((dev >> 32) & 0xfffff000u));
-}
-
-unsigned int gnu_dev_minor(unsigned long dev)
-{
-	return (unsigned int)((dev & 0xffu) | ((dev >> 12) & 0xffffff00u));
-}
-
-unsigned long gnu_dev_makedev(unsigned int maj, unsigned int min)
-{
-	return (((unsigned long)(maj & 0x00000fffu)) << 8) |
-	       (((unsigned long)(maj & 0xfffff000u)) << 32) |
-	       (((unsigned long)(min & 0x000000ffu)) << 0) |
-	       (((unsigned long)(min & 0xffffff00u)) << 12);
-}
+#include "sysmacros_model.h"
 #endif
 
 /* diagnostics: no effect on the state we reason about */
